@@ -69,7 +69,22 @@ namespace vh {
         } while (std::chrono::steady_clock::now() < until);
     }
 
-    // main-thread polling pause (virtual time; lets everybody else run)
-    inline void main_pause() { std::this_thread::sleep_for(std::chrono::microseconds(2)); }
+    // Main-thread polling pause (virtual time; lets everybody else run). The parties execute their
+    // programs in the *fault phase* (drawn strategy, faults on). Only when the main thread has been
+    // polling for `fault_steps` schedule points without the workload finishing does the run enter the
+    // quiescence phase (faults off, fair round-robin) with its liveness budget.
+    inline void main_pause(uint64_t budget = 2000000, uint64_t fault_steps = 400000)
+    {
+        static uint64_t first = 0;
+        static bool quiesced = false;
+        uint64_t now = sim_seq();
+        if (!first) first = now;
+        if (!quiesced && now - first > fault_steps)
+        {
+            quiesced = true;
+            sim_quiesce(budget);
+        }
+        std::this_thread::sleep_for(std::chrono::microseconds(2));
+    }
 
 }    // namespace vh
